@@ -55,7 +55,8 @@ func TestC12Shutdown(t *testing.T) {
 		cfg := baseConfig()
 		h := newH(rt, "C12", sim.Options{Config: cfg})
 		state := rapid.SampledFrom([]string{"never-connected", "dialing", "awaiting-connack", "resending", "online-idle", "online-holding",
-			"writers-parked", "offline-after-failed-connect", "reconnect-pending", "already-closed"}).Draw(rt, "state")
+			"writers-parked", "offline-after-failed-connect", "reconnect-pending", "already-closed", "remote-closed-unnoticed"}).Draw(rt, "state")
+		h.PipeLike = rapid.Bool().Draw(rt, "pipeLikeConnections")
 		h.Act("state %s", state)
 		nontrivial := state != "online-idle" && state != "never-connected"
 		defer func() { h.finish(nontrivial) }()
@@ -101,11 +102,18 @@ func TestC12Shutdown(t *testing.T) {
 			})
 			h.App.Step()
 			h.SettleReader("resend parked")
-		case "online-idle", "online-holding", "writers-parked", "reconnect-pending":
+		case "online-idle", "online-holding", "writers-parked", "reconnect-pending", "remote-closed-unnoticed":
 			h.App.Step()
 			h.SettleReader("connect")
 			if state == "online-holding" {
 				h.brokerSend(byte(rapid.IntRange(1, 2).Draw(rt, "qos")), 5)
+			}
+			if state == "remote-closed-unnoticed" {
+				// the application holds a message (it is not reading) while the
+				// broker closes; the next writer is the first to learn of it
+				h.brokerSend(byte(rapid.IntRange(0, 2).Draw(rt, "qos")), 5)
+				h.Current().Break(true)
+				request(rapid.SampledFrom([]int{0, 1, 2, 3}).Draw(rt, "firstToNotice"))
 			}
 			if state == "writers-parked" {
 				h.armWrite(rapid.IntRange(0, 6).Draw(rt, "parkOff"), sim.WPark)
